@@ -112,7 +112,7 @@ Fixpoint eval (aw : N) (env : venv) (sl : res N) (e : expr) : res N :=
   | ELit n => Ok n
   | EVar x => match lookup env x with Some (VN n) => Ok n | _ => Err end
   | ELen x => match lookup env x with Some (VL l) => Ok (N.of_nat (length l)) | _ => Err end
-  | ESelfLen => sl
+  | ESelfLen => do n <- sl; if n <? 4294967296 then Ok n else Err   (* _len() : u32 *)
   | EAdd a b => do x <- eval aw env sl a; do y <- eval aw env sl b;
                 if x + y <? 2 ^ aw then Ok (x + y) else Err
   | ESub a b => do x <- eval aw env sl a; do y <- eval aw env sl b;
@@ -501,6 +501,39 @@ Definition decl_wf (D : denv) (d : decl) : bool :=
   | DEnum _ _ vars _ => forallb (fun va => forallb (field_wf D) (v_fields va)) vars
   end.
 Definition denv_wf (D : denv) : bool := forallb (fun nd => decl_wf D (snd nd)) D.
+
+(* ---------- symbolic check of a length const against the fields that follow it ----------
+   [attr_len_ok tw fs]: in a variant whose tag is [tw] wide and whose fields are [fs], the first
+   thing written after the tag is a u32 that holds the number of bytes written after it:
+     - `this._len() - 6` with a two-byte tag (2 + 4 = 6), or
+     - a literal m and only fixed-size fields summing to m, or
+     - `c + k * x.len()` followed by exactly the vector x of k-byte numbers behind a c-byte count, or
+     - no const at all: the u32 count of a vector of bytes that is the whole rest. *)
+Fixpoint skip_nowrite (fs : list field) : list id * list field :=
+  match fs with
+  | FMut x _ (Some _) _ :: fs' => let (ns, r) := skip_nowrite fs' in (x :: ns, r)
+  | _ => ([], fs)
+  end.
+Fixpoint fixed_size (fs : list field) : option N :=
+  match fs with
+  | [] => Some 0
+  | FConst _ w _ :: fs' => option_map (N.add (N.of_nat (wbytes w))) (fixed_size fs')
+  | FMut _ (One (Prim w)) None _ :: fs' => option_map (N.add (N.of_nat (wbytes w))) (fixed_size fs')
+  | FMut _ _ (Some _) _ :: fs' => fixed_size fs'
+  | _ => None
+  end.
+Definition attr_len_ok (tw : width) (fs : list field) : bool :=
+  let (names, rest) := skip_nowrite fs in
+  match rest with
+  | FConst _ W32 (CE _ (ESub ESelfLen (ELit six))) :: _ => N.eqb six 6 && match tw with W16 => true | _ => false end
+  | FConst _ W32 (CE _ (ELit m)) :: rest' =>
+      match fixed_size rest' with Some n => N.eqb n m | None => false end
+  | FConst _ W32 (CE _ (EAdd (ELit c) (EMul (ELit k) (ELen x)))) :: [FMut y (Vec (Prim w) (VCount cw)) None _] =>
+      id_eqb x y && N.eqb c (N.of_nat (wbytes cw)) && N.eqb k (N.of_nat (wbytes w))
+      && negb (existsb (id_eqb x) names)
+  | [FMut _ (Vec (Prim W8) (VCount W32)) None _] => true
+  | _ => false
+  end.
 
 (* ---------- nesting depth of a value: fuel that suffices to write it ---------- *)
 Fixpoint depth (v : val) : nat :=
